@@ -326,8 +326,11 @@ class Session:
         self.aux_count += 1
         r = catalog.Resource(self.info, self.scratch, f"aux{self.aux_count}",
                              store=self.resources[0].store)
-        r.outside_write(model.norm(model.decode(value)), bump=False)
-        return r.new_handle(write_concern=self.cfg.get("wc", False))
+        plain = model.norm(model.decode(value))
+        r.outside_write(plain, bump=False)
+        d, l = self.info.family_classes()
+        return r.new_handle(write_concern=self.cfg.get("wc", False),
+                            cls=d if isinstance(plain, dict) else l)
 
     def _navigate(self, h, sub):
         node = self.objs[h]
@@ -422,6 +425,9 @@ class Session:
             self.resources[step["res"]].outside_write(model.norm(model.decode(step["outside"])),
                                                       bump=step.get("bump", True))
             self.model.outside(step["res"], model.norm(model.decode(step["outside"])))
+            if "trans" in step:
+                k = "trans:" + step["trans"]
+                self.counters[k] = self.counters.get(k, 0) + 1
             return
         if "enter" in step:
             return self._do_enter(step)
